@@ -356,7 +356,9 @@ class YPPrologVisitor(prologVisitor):
             variable = AnonymousVariableTerm(self.anonymousVariableCounter)
             self.anonymousVariableCounter += 1
         else:
-            variable = VariableTerm(varname)
+            # the prefix keeps source variables apart from Python's reserved words and from
+            # the names the generated code itself uses (ATOM_NIL, True, doBreak, argN, ...)
+            variable = VariableTerm('V_' + varname)
         return variable
 
     def unquoteString(self,s):
